@@ -230,7 +230,7 @@ Ltac all_idx := apply forallb_forall; let i := fresh "i" in let H := fresh "Hi" 
 
 Theorem spec_base_model : forall c, kf c = 0 -> spec_base c (model_obs c) = true.
 Proof.
-  intros c Hk. unfold spec_base, model_obs. cbn [o_eq o_hash o_lt o_sort]. rewrite Hk. cbn [N.eqb].
+  intros c Hk. unfold spec_base, model_obs. cbn [o_eq o_hash o_lt o_flags]. rewrite Hk. cbn [N.eqb forallb andb].
   set (ts := c_terms c).
   rewrite !shape_matrix, map_length, Nat.eqb_refl. cbn [andb].
   rewrite andb_true_r.
@@ -459,9 +459,17 @@ Proof.
     rewrite (mlt_trans _ _ _ M1 M2). reflexivity.
 Qed.
 
+Lemma ne_ok_model : forall c, ne_ok c (model_obs c) = true.
+Proof.
+  intro c. unfold ne_ok, model_obs. cbn [o_ne o_eq]. set (ts := c_terms c).
+  rewrite shape_matrix. cbn [andb]. all_idx. all_idx.
+  rewrite (nthd_matrix (fun a b => negb (term_eqb a b)) ts i i0 false (IRI [])) by assumption.
+  rewrite (nthd_matrix term_eqb ts i i0 false (IRI [])) by assumption. apply eqb_reflx.
+Qed.
+
 Theorem spec_ok_model : forall c, kf c = 0 -> spec_ok c (model_obs c) = true.
 Proof.
-  intros c Hk. unfold spec_ok. rewrite (spec_base_model c Hk). cbn [andb].
+  intros c Hk. unfold spec_ok. rewrite (spec_base_model c Hk), ne_ok_model, andb_true_r. cbn [andb].
   unfold model_obs. cbn [o_lt]. apply family_ok_model. exact Hk.
 Qed.
 
@@ -576,7 +584,7 @@ Lemma spec_ok_reads : forall c o, spec_ok c o = true ->
     (* the order between kinds and inside a kind is the required one; two literals never raise *)
     /\ lt_entry_ok a b (nthd (o_lt o) i j None) = true.
 Proof.
-  intros c o H ts i j Hi Hj a b. unfold spec_ok in H. apply andb_true_iff in H as [H _]. unfold spec_base in H. fold ts in H.
+  intros c o H ts i j Hi Hj a b. unfold spec_ok in H. apply andb_true_iff in H as [H _]. apply andb_true_iff in H as [H _]. unfold spec_base in H. fold ts in H.
   repeat (apply andb_true_iff in H as [H ?]).
   repeat split.
   - pose proof (forallb_idx ts _ H6 i Hi) as X. cbv beta in X.
@@ -598,7 +606,7 @@ Lemma spec_ok_family_reads : forall c o, spec_ok c o = true ->
     ~ (lt i j /\ lt j i)
     /\ (same_family (t j) (t k) = true -> lt i j -> lt j k -> lt i k).
 Proof.
-  intros c o H ts t lt i j k Hi Hj Hk F. unfold spec_ok in H. apply andb_true_iff in H as [_ H].
+  intros c o H ts t lt i j k Hi Hj Hk F. unfold spec_ok in H. apply andb_true_iff in H as [H _]. apply andb_true_iff in H as [_ H].
   unfold family_ok in H. fold ts in H. apply andb_true_iff in H as [H1 H2]. unfold lt. split.
   - intros [A B].
     pose proof (forallb_idx ts _ H1 i Hi) as X. cbv beta in X.
@@ -610,4 +618,15 @@ Proof.
     pose proof (forallb_idx ts _ Y k Hk) as Z. cbv beta in Z.
     fold (t i) (t j) (t k) in Z. rewrite F, F2, A, B in Z. cbn in Z.
     destruct (nthd (o_lt o) i k None) as [[| |]|]; try discriminate. reflexivity.
+Qed.
+
+(* != on the observed matrices *)
+Lemma spec_ok_ne_reads : forall c o, spec_ok c o = true ->
+  forall i j, (i < length (c_terms c))%nat -> (j < length (c_terms c))%nat ->
+    nthd (o_ne o) i j false = negb (nthd (o_eq o) i j false).
+Proof.
+  intros c o H i j Hi Hj. unfold spec_ok in H. apply andb_true_iff in H as [_ H]. unfold ne_ok in H.
+  apply andb_true_iff in H as [_ H].
+  pose proof (forallb_idx (c_terms c) _ H i Hi) as X. cbv beta in X.
+  pose proof (forallb_idx (c_terms c) _ X j Hj) as Y. cbv beta in Y. apply eqb_prop in Y. exact Y.
 Qed.
